@@ -76,7 +76,7 @@ STDS = {'c++17': ['-std=c++17'], 'c++17-abacus': ['-std=c++17', '-DFIXEDMATH_ENA
 R_ALL = ['%s-O%d-%s' % (cc, o, s) for cc in ('g++', 'clang++') for o in (0, 1, 2, 3) for s in STDS]
 R_QUICK = ['g++-O0-c++17', 'g++-O2-c++17-abacus', 'g++-O1-c++20', 'g++-O3-c++2b',
            'clang++-O0-c++17-abacus', 'clang++-O1-c++17', 'clang++-O2-c++2b', 'clang++-O3-c++20']
-S_ALL = ['S-%s-O%d-%s' % (cc, o, s) for cc in ('g++', 'clang++') for o in (0, 1) for s in ('c++17', 'c++17-abacus')]
+S_ALL = ['S-%s-O%d-%s' % (cc, o, s) for cc in ('g++', 'clang++') for o in (0, 1) for s in ('c++17', 'c++17-abacus')] + ['S-g++-O2-c++20', 'S-clang++-O2-c++2b', 'S-g++-O3-c++17', 'S-clang++-O3-c++17-abacus']
 S_QUICK = ['S-g++-O0-c++17', 'S-g++-O1-c++17-abacus', 'S-clang++-O0-c++17-abacus', 'S-clang++-O1-c++17']
 SAN = '-fsanitize=signed-integer-overflow,shift,integer-divide-by-zero,float-cast-overflow,bounds,bool,builtin,unreachable,return'
 
